@@ -259,3 +259,89 @@ func withoutPingresp(in []string) []string {
 	}
 	return out
 }
+
+// TestC17NodeFailure: the failing node hosts will-bearing sessions of both tenants; each tenant's
+// watcher on the surviving node must receive exactly its own tenant's wills, under its own names.
+func TestC17NodeFailure(t *testing.T) {
+	type np struct {
+		MountA, MountB string
+		WillsA, WillsB int
+		Nodes          int
+	}
+	var paths []np
+	for _, m := range [][2]string{{"m1", "m2"}, {"m1", "m10"}, {"m10", "m1"}} {
+		for _, wa := range []int{1, 2} {
+			for _, wb := range []int{1, 2} {
+				for _, n := range []int{2, 3} {
+					paths = append(paths, np{m[0], m[1], wa, wb, n})
+				}
+			}
+		}
+	}
+	RunPaths(t, "C17", "C17/node-failure-wills", "TestC17NodeFailure", len(paths), vk.Pick(4*time.Minute, 10*time.Minute),
+		func(t *testing.T, i int, rep *vk.Report) {
+			p := paths[i]
+			RunBubble(t, fmt.Sprintf("p%d", i), func(t *testing.T) {
+				w := NewWorld(t, p.Nodes)
+				defer w.Close()
+				watch := map[string]*Client{}
+				for _, mp := range []string{p.MountA, p.MountB} {
+					c := w.NewClient("watch-"+mp, 2, AckAll)
+					c.Connect(ConnectOpts{ClientID: "watch", KeepAlive: 600, User: "mp:" + mp})
+					c.Subscribe(1, 1, "#")
+					watch[mp] = c
+				}
+				want := map[string]map[string]bool{p.MountA: {}, p.MountB: {}}
+				// sessions are created alternately so that the failing node's list interleaves the tenants
+				for k := 0; k < 2; k++ {
+					for _, x := range []struct {
+						mp string
+						n  int
+					}{{p.MountA, p.WillsA}, {p.MountB, p.WillsB}} {
+						if k >= x.n {
+							continue
+						}
+						c := w.NewClient(fmt.Sprintf("dying-%s-%d", x.mp, k), 1, AckAll)
+						topic := fmt.Sprintf("status/%d", k)
+						payload := fmt.Sprintf("will-of-%s-%d", x.mp, k)
+						c.Connect(ConnectOpts{ClientID: fmt.Sprintf("dev%d", k), KeepAlive: 600, User: "mp:" + x.mp, WillTopic: topic, WillMsg: payload, WillQos: 1})
+						want[x.mp][topic+"|"+payload] = true
+					}
+				}
+				w.Step()
+				w.Leave(1)
+				w.Idle(8 * time.Second)
+				Observe(w, rep)
+				for mp, c := range watch {
+					got := map[string]int{}
+					for _, pk := range c.Publishes() {
+						got[string(pk.Topic)+"|"+string(pk.Payload)]++
+					}
+					for k, n := range got {
+						if !want[mp][k] {
+							rep.Violate(vk.Violation{Sig: "c17-will-crossed-mount-points", Msg: fmt.Sprintf("%+v: the watcher of mount point %s received %s (x%d), which is not a will of its tenant (%v)", p, mp, k, n, keysSorted(want[mp])), Replay: p})
+							return
+						}
+						if n != 1 {
+							rep.Violate(vk.Violation{Sig: "c17-will-duplicated", Msg: fmt.Sprintf("%+v: %s received %s %d times", p, mp, k, n), Replay: p})
+							return
+						}
+					}
+					for k := range want[mp] {
+						if got[k] == 0 {
+							rep.Violate(vk.Violation{Sig: "c17-will-missing-in-own-mount-point", Msg: fmt.Sprintf("%+v: the watcher of mount point %s did not receive its tenant's will %s; it received %v", p, mp, k, got), Replay: p})
+							return
+						}
+					}
+				}
+				MarkNontrivial(fmt.Sprintf("%+v", p))
+				rep.Nontrivial++
+				rep.Sample(p)
+			})
+		},
+		func(i int) any { return paths[i] },
+		func(rep *vk.Report) {
+			rep.Rule = "2-3 nodes; node 1 hosts 1-2 will-bearing sessions of each of two tenants (mount pairs (m1,m2), (m1,m10), (m10,m1)), created alternately; node 1 fails; each tenant's '#' watcher on node 2 must receive exactly its own tenant's wills once each, under the names the clients wrote"
+			rep.Floor("paths", 10, rep.Nontrivial)
+		})
+}
